@@ -880,4 +880,82 @@ func checkC20(e *Engine, r *Report) {
 		visit(ib, false)
 		r.Check(ok && n > 0, "indexer.KVIndexer.IndexBlock › panicking payload accessors only for ante-validated transactions", e.Pos(ib.Pos()), itoa(n)+" accessor call(s), all after the dropped-before-ante test", "IndexBlock decodes the embedded Ethereum payload of a transaction that never reached the ante handler: a malformed payload panics in the indexer goroutine (no recovery) and the node crashes on every restart")
 	})
+
+	r.Rule("R9", "INIT-BEFORE-GO", "a goroutine started with `go func() {…}()` runs outside every panic recovery of the node (BaseApp's, gRPC's, the JSON-RPC server's): a variable it captures by reference and calls methods on (or dereferences) must be completely assigned before the `go` statement — at least one assignment dominates it and none can follow it — otherwise the goroutine can observe the zero value (nil interface / pointer) and crash the process", 3, func() {
+		n := 0
+		for _, f := range e.SrcFuncs(e.RepoOwned) {
+			if IsGenerated(e.File(f.Pos())) || isTestSupportPkg(pkgPathOf(f)) {
+				continue
+			}
+			allInstrs(f, false, func(_ *ssa.Function, _ *ssa.BasicBlock, in ssa.Instruction) {
+				g, ok := in.(*ssa.Go)
+				if !ok {
+					return
+				}
+				mc, ok := g.Call.Value.(*ssa.MakeClosure)
+				if !ok {
+					return
+				}
+				body, _ := mc.Fn.(*ssa.Function)
+				if body == nil {
+					return
+				}
+				for bi, b := range mc.Bindings {
+					cell, isCell := b.(*ssa.Alloc)
+					if !isCell || bi >= len(body.FreeVars) {
+						continue
+					}
+					// only cells of interface / pointer / func / map / chan type can be nil
+					switch cell.Type().(*types.Pointer).Elem().Underlying().(type) {
+					case *types.Interface, *types.Pointer, *types.Signature, *types.Map, *types.Chan:
+					default:
+						continue
+					}
+					// does the goroutine use the value (invoke a method on it, call it, dereference it)?
+					fv := body.FreeVars[bi]
+					uses := false
+					if fv.Referrers() != nil {
+						for _, rr := range *fv.Referrers() {
+							ld, isLd := rr.(*ssa.UnOp)
+							if !isLd || ld.Op != token.MUL || ld.Referrers() == nil {
+								continue
+							}
+							for _, r2 := range *ld.Referrers() {
+								switch u := r2.(type) {
+								case ssa.CallInstruction:
+									if u.Common().Value == ssa.Value(ld) {
+										uses = true
+									}
+								case *ssa.UnOp:
+									if u.Op == token.MUL && u.X == ssa.Value(ld) {
+										uses = true
+									}
+								case *ssa.FieldAddr:
+									if u.X == ssa.Value(ld) {
+										uses = true
+									}
+								}
+							}
+						}
+					}
+					if !uses {
+						continue
+					}
+					n++
+					before, after := false, false
+					for _, st := range storesTo(cell) {
+						if dominatesInstr(st, g) {
+							before = true
+						} else if reachesFrom(f, g, st) {
+							after = true
+						}
+					}
+					name := cell.Comment
+					key := "goroutine capture › " + fnKey(f) + " › " + name
+					r.Check(before && !after, key, e.Pos(g.Pos()), "assigned before the go statement, never after", "the goroutine started here calls through the captured variable `"+name+"`, which is "+map[bool]string{true: "assigned again after the go statement", false: "not assigned on every path before the go statement"}[before]+": the goroutine can see a nil value and panic outside any recovery (process crash)")
+				}
+			})
+		}
+		r.Count("goroutine_captured_cells", n)
+	})
 }
